@@ -21,6 +21,8 @@ out = ["# Seeded changes and what the checks made of them", "",
        "strengthened in between (DESIGN.md §16.3).", ""]
 ids = sorted(d for d in os.listdir(root) if os.path.isdir(f'{root}/{d}'))
 caught = missed = 0
+caught_elsewhere = []
+not_caught = []
 for sid in ids:
     meta = json.load(open(f'{root}/{sid}/meta.json'))
     out.append(f"## {sid} — {meta.get('summary', '').strip()}")
@@ -36,12 +38,16 @@ for sid in ids:
             final = verdict
     if not runs:
         out.append("- not run yet")
+    other = [chk for chk, tier, verdict, msg in runs if verdict == 'CAUGHT' and chk != sid.split('-')[0]]
     if final == 'CAUGHT':
         caught += 1
+    elif other:
+        caught_elsewhere.append(f"{sid} (by {other[-1]})")
     elif final is not None:
         missed += 1
+        not_caught.append(f"{sid} ({final})")
     out.append("")
-out.insert(10, f"**Summary:** {len(ids)} confirmed changes; own-property check catches {caught}, misses {missed} (final state).")
+out.insert(10, f"**Summary (final state):** {len(ids)} confirmed changes; {caught} caught by the check of the property they were written against; {len(caught_elsewhere)} missed by that check but caught by the check of the property that owns the mechanism: {', '.join(caught_elsewhere)}; {missed} not decided: {', '.join(not_caught)}.")
 out.insert(11, "")
 if os.path.exists(f'{root}/rejected.txt'):
     out.append("## Not kept")
